@@ -206,6 +206,7 @@ func TestVerif_C29(t *testing.T) {
 	vfC29Fills(rec)
 	vfC29ReadStorm(rec)
 	vfC29ReadVsShrink(rec)
+	vfC29ReplacedUnderHandle(rec)
 	eps := evid.Pick(90, 12000)
 	for ep := 0; ep < eps && rec.Violations() < 20 && !vfC29Hung; ep++ {
 		vfC29Episode(rec, ep)
@@ -1327,6 +1328,152 @@ func vfC29ReadVsShrink(rec *evid.Rec) {
 			}
 			rec.Distinct(fmt.Sprintf("read-vs-shrink|%s|ttl=%v|%s", mut, ttl, outcome))
 			srv.Close()
+		}
+	}
+}
+
+// vfC29ReplacedUnderHandle: a client holds a handle for a path; the object at that path is
+// then replaced by one of another type (RENAME over it, or REMOVE/RMDIR and RENAME of another
+// object to the name). Handles name paths in this server and LOOKUP hands the very same handle
+// id out again, so a request through the handle must be answered from the object that is at
+// the path now: the same requests are sent before and after a plain LOOKUP of the name (which
+// changes nothing), and the two sets of replies must agree; GETATTR must report the new type.
+func vfC29ReplacedUnderHandle(rec *evid.Rec) {
+	kinds := []string{"file", "dir", "symlink"}
+	plant := func(fs *refs.FS, p, kind, tag string) {
+		switch kind {
+		case "file":
+			fs.PlantFile(p, []byte("data-"+tag), 0666, 0, 0)
+		case "dir":
+			fs.PlantDir(p, 0777, 0, 0)
+		default:
+			fs.PlantSymlink(p, "target-"+tag)
+		}
+	}
+	ftype := map[string]uint32{"file": 1, "dir": 2, "symlink": 5}
+	for _, oldK := range kinds {
+		for _, newK := range kinds {
+			if oldK == newK {
+				continue
+			}
+			for _, how := range []string{"rename-over", "remove-then-rename-to-the-name"} {
+				if how == "rename-over" && (oldK == "dir") != (newK == "dir") {
+					continue // refused by every backend
+				}
+				for _, ttl := range []time.Duration{1, time.Hour} {
+					fs := refs.New()
+					fs.PlantDir("/d", 0777, 0, 0)
+					plant(fs, "/d/p", oldK, "old")
+					plant(fs, "/d/q", newK, "new")
+					if newK == "dir" {
+						fs.PlantFile("/d/q/k", []byte("k"), 0666, 0, 0)
+					}
+					srv, err := vfNewSrv(fs, ExportOptions{AttrCacheTimeout: ttl, EnableDirCache: ttl > 1, CacheNegativeLookups: ttl > 1})
+					if err != nil {
+						rec.Infra(err.Error())
+						return
+					}
+					c := srv.client()
+					root, _ := c.mnt("/")
+					dl, _ := c.lookup(root, "d")
+					if dl == nil || dl.Status != 0 {
+						rec.Infra("lookup /d")
+						srv.Close()
+						return
+					}
+					dh := vfFH(dl.FH)
+					pl, _ := c.lookup(dh, "p")
+					if pl == nil || pl.Status != 0 {
+						rec.Infra("lookup /d/p")
+						srv.Close()
+						return
+					}
+					h := vfFH(pl.FH)
+					// the client uses the handle once while the old object is there
+					c.getattr(h)
+					if how != "rename-over" {
+						var r *rfc.Res
+						if oldK == "dir" {
+							r, _ = c.rmdir(dh, "p")
+						} else {
+							r, _ = c.remove(dh, "p")
+						}
+						if r == nil || r.Status != 0 {
+							rec.Infra("remove /d/p")
+							srv.Close()
+							return
+						}
+					}
+					if r, _ := c.rename(dh, "q", dh, "p"); r == nil || r.Status != 0 {
+						rec.Infra("rename /d/q -> /d/p")
+						srv.Close()
+						return
+					}
+					type ans struct {
+						proc   string
+						status uint32
+						detail string
+					}
+					ask := func(h uint64) []ans {
+						var out []ans
+						add := func(proc string, r *rfc.Res, detail func() string) {
+							a := ans{proc: proc, status: ^uint32(0)}
+							if r != nil {
+								a.status = r.Status
+								if r.Status == 0 && detail != nil {
+									a.detail = detail()
+								}
+							}
+							out = append(out, a)
+						}
+						g, _ := c.getattr(h)
+						add("GETATTR", g, func() string { return fmt.Sprintf("type=%d", g.Attr.Type) })
+						rl, _ := c.readlink(h)
+						add("READLINK", rl, func() string { return rl.Link })
+						lk, _ := c.lookup(h, "k")
+						add("LOOKUP", lk, nil)
+						rd, _ := c.readdir(h, 0, 4096)
+						add("READDIR", rd, func() string { return fmt.Sprint(len(rd.Entries)) })
+						rp, _ := c.readdirplus(h, 0, 4096, 8192)
+						add("READDIRPLUS", rp, func() string { return fmt.Sprint(len(rp.Entries)) })
+						rm, _ := c.remove(h, "zz")
+						add("REMOVE", rm, nil)
+						rmd, _ := c.rmdir(h, "zz")
+						add("RMDIR", rmd, nil)
+						if newK == "file" {
+							rr, _ := c.read(h, 0, 64)
+							add("READ", rr, func() string { return string(rr.Data) })
+						}
+						return out
+					}
+					before := ask(h)
+					again, _ := c.lookup(dh, "p")
+					if again == nil || again.Status != 0 {
+						rec.Violate("C29/object-moved-to-a-name-is-not-found-there/"+how, fmt.Sprintf("%s /d/q was renamed to /d/p (formerly a %s, %s, ttl %v): LOOKUP of p answers %v", newK, oldK, how, ttl, again), map[string]any{"old": oldK, "new": newK, "how": how})
+						srv.Close()
+						continue
+					}
+					after := ask(vfFH(again.FH))
+					rec.Eval(len(before) + len(after))
+					desc := map[string]any{"old": oldK, "new": newK, "how": how, "ttl": ttl.String(), "same_handle_id": vfFH(again.FH) == h}
+					for i := range before {
+						if before[i] != after[i] {
+							rec.Violate("C29/reply-through-a-handle-held-across-a-replacement-differs-from-the-reply-after-a-fresh-lookup/"+before[i].proc,
+								fmt.Sprintf("/d/p was a %s when the handle was issued and is a %s now (%s, attr TTL %v): %s through the handle answers status %d %q; after a LOOKUP of p (same handle id: %v), which changes nothing, the same request answers status %d %q",
+									oldK, newK, how, ttl, before[i].proc, before[i].status, before[i].detail, vfFH(again.FH) == h, after[i].status, after[i].detail), desc)
+						}
+					}
+					if before[0].status == 0 && before[0].detail != fmt.Sprintf("type=%d", ftype[newK]) {
+						rec.Violate("C29/getattr-through-a-handle-reports-the-replaced-object", fmt.Sprintf("/d/p is a %s now (%s over a %s, attr TTL %v) and GETATTR through the handle says %s", newK, how, oldK, ttl, before[0].detail), desc)
+					}
+					sig := ""
+					for _, a := range before {
+						sig += fmt.Sprintf("%s=%d,", a.proc, a.status)
+					}
+					rec.Distinct(fmt.Sprintf("replaced-under-handle|%s->%s|%s|ttl=%v|%s", oldK, newK, how, ttl, sig))
+					srv.Close()
+				}
+			}
 		}
 	}
 }
